@@ -2,6 +2,7 @@ package sim
 
 import (
 	"context"
+	"database/sql"
 	"encoding/base64"
 	"fmt"
 	"io"
@@ -35,6 +36,9 @@ type Env struct {
 
 	dbName string
 	lim    Limits
+	sys    *Sys
+	keeper *sql.Conn
+	cfgKey string
 }
 
 // logProbe turns the engine's log lines into reach probes.
@@ -70,6 +74,7 @@ type EnvOpts struct {
 }
 
 func NewEnv(t testing.TB, opts EnvOpts) *Env {
+	installL2()
 	installUUIDGen()
 	theGen.Reseed(0xC0FFEE, orderRandom)
 	n := envCounter.Add(1)
@@ -81,10 +86,25 @@ func NewEnv(t testing.TB, opts EnvOpts) *Env {
 			dsn += "&_journal_mode=WAL"
 		}
 	}
+	var keeper *sql.Conn
+	if !opts.File {
+		// an in-memory shared-cache database lives only as long as one connection
+		// is open; injected bad-connection faults make database/sql drop its
+		// connections, so the harness pins one of its own (plain go-sqlite3, not
+		// through the L2 seam)
+		kdb, err := sql.Open("sqlite3", fmt.Sprintf("file:%s?_fk=true&cache=shared&mode=memory", name))
+		if err != nil {
+			t.Fatalf("keeper: %v", err)
+		}
+		keeper, err = kdb.Conn(context.Background())
+		if err != nil {
+			t.Fatalf("keeper: %v", err)
+		}
+	}
 	reg := driver.NewTestRegistry(t, &dbx.DsnT{Conn: dsn, MigrateUp: true},
 		driver.WithLogLevel("panic"),
 		driver.WithNamespaces([]*namespace.Namespace{{Name: "boot"}}))
-	e := &Env{T: t, Reg: reg, Ctx: context.Background(), dbName: name, Log: &logProbe{}}
+	e := &Env{T: t, Reg: reg, Ctx: context.Background(), dbName: name, Log: &logProbe{}, keeper: keeper}
 	lg := reg.Logger().Logrus()
 	lg.SetOutput(io.Discard)
 	lg.SetFormatter(nullFormatter{})
@@ -168,6 +188,9 @@ func (e *Env) ApplyConfig(cfg *Config) (opl string, err error) {
 
 func (t Tuple) API() *ketoapi.RelationTuple {
 	r := &ketoapi.RelationTuple{Namespace: t.NS, Object: t.Obj, Relation: t.Rel}
+	if t.Sub.Nil {
+		return r
+	}
 	if t.Sub.Set != nil {
 		r.SubjectSet = &ketoapi.SubjectSet{Namespace: t.Sub.Set.NS, Object: t.Sub.Set.Obj, Relation: t.Sub.Set.Rel}
 	} else {
